@@ -312,3 +312,96 @@ class IsIEquivalent(Contract):
 
 
 register(IsIEquivalent())
+
+
+# --------------------------------------------------------------------------------------------------- entailment tests
+CL = z3.Function("closure_of", set_sort(IA), set_sort(IA))   # ghost: the assertion set closure() returns for a given assertion set
+
+
+def _indep(name):
+    return Obj("Independencies", {"independencies": Coll("list", IA, z3.Const(name, set_sort(IA)))})
+
+
+def _members(o):
+    l = o.fields["independencies"]
+    return l.mem if l.mem is not None else empty_set(IA)
+
+
+def listed(S, x):
+    """x is found in the assertion collection S by `in` (equality up to swapping the two event sets)"""
+    from vf.pyvc.lib import ia_eq
+    e = fresh("e", IA)
+    return z3.Exists([e], z3.And(S[e], ia_eq(e, x)))
+
+
+class ClosureAssumed(Contract):
+    """ASSUMED contract of Independencies.closure() as a callee (never verified here: the rule functions sg1/sg2/sg3 are verified
+    separately and sg3 is known to be unsound, K01): it returns a new Independencies object whose assertion set is a function CL
+    of the receiver's assertion set and does not touch the receiver."""
+    file = FILE
+    qual = "Independencies.closure"
+
+    def make_result(self, ex, st, args):
+        ex.assumed.add("Independencies.closure() used through an assumed contract: fresh object, assertion set = CL(receiver's assertion set) "
+                       "(deterministic), receiver untouched - what CL is, is decided by the sg1/sg2/sg3 contracts and the bounded closure group")
+        return Obj("Independencies", {"independencies": Coll("list", IA, CL(_members(args["self"])))})
+
+    def post(self, ex, st, args, old, result):
+        return z3.BoolVal(True)
+
+
+register(ClosureAssumed())
+
+
+class Contains(Contract):
+    file = FILE
+    qual = "Independencies.contains"
+
+    def variants(self, ex):
+        yield "assertion", {"self": _indep("A"), "assertion": ia("x")}, {}
+
+    def post(self, ex, st, args, old, result):
+        if not isinstance(result, Scalar):
+            return z3.BoolVal(False)
+        return result.z == listed(_members(args["self"]), args["assertion"].z)
+
+
+class Entails(Contract):
+    """entails(other)  <=>  every assertion of `other` is found (up to symmetry) in self.closure()"""
+    file = FILE
+    qual = "Independencies.entails"
+
+    def variants(self, ex):
+        yield "independencies", {"self": _indep("A"), "entailed_independencies": _indep("Bs")}, {}
+        yield "foreign", {"self": _indep("A"), "entailed_independencies": atom("b", "str")}, {}
+
+    def make_result(self, ex, st, args):
+        return Scalar(fresh("entails", B))
+
+    def post(self, ex, st, args, old, result):
+        if not isinstance(result, Scalar):
+            return z3.BoolVal(False)
+        o = args["entailed_independencies"]
+        if not isinstance(o, Obj):
+            return result.z == z3.BoolVal(False)
+        x = fresh("x", IA)
+        return result.z == z3.ForAll([x], z3.Implies(_members(o)[x], listed(CL(_members(args["self"])), x)))
+
+
+class IsEquivalent(Contract):
+    file = FILE
+    qual = "Independencies.is_equivalent"
+
+    def variants(self, ex):
+        yield "independencies", {"self": _indep("A"), "other": _indep("Bs")}, {}
+
+    def post(self, ex, st, args, old, result):
+        if not isinstance(result, Scalar):
+            return z3.BoolVal(False)
+        x = fresh("x", IA)
+        A, Bm = _members(args["self"]), _members(args["other"])
+        return result.z == z3.And(z3.ForAll([x], z3.Implies(Bm[x], listed(CL(A), x))), z3.ForAll([x], z3.Implies(A[x], listed(CL(Bm), x))))
+
+
+for _c in (Contains(), Entails(), IsEquivalent()):
+    register(_c)
